@@ -93,7 +93,7 @@ def _pit_specs(fam):
     from plinio.cost.params_no_bias import params_no_bias
     from plinio.cost.ops_no_bias import ops_no_bias
     d = {'params': params, 'params_no_bias': params_no_bias, 'ops': ops, 'ops_no_bias': ops_no_bias}
-    if fam == 'D2':
+    if fam in ('D2', 'L1'):
         d['gap8_latency'] = gap8_latency
     return d
 
@@ -204,13 +204,26 @@ def _run_pit(res, p, selftest):
                 guards = list(ex.guards[ng:])
                 gs = torch.autograd.grad(c, list(sy.values()) + list(wsy.values()), allow_unused=True, retain_graph=False)
                 out[metric] = (st.scalar_of(c), {k: (None if g is None else list(st.to_arr(g).reshape(-1))) for k, g in zip(list(sy) + list(wsy), gs)}, guards)
+            # a function of the architecture only: reading every metric a second time (after all of them have been read once) gives the same value
+            ng = len(ex.guards)
+            again = {metric: st.scalar_of(pit.get_cost(metric)) for metric in specs}
+            del ex.guards[ng:]
+        out = {k: v + (again[k],) for k, v in out.items()}
         return sy, wsy, out
     ex = Explorer(timeout_ms=Q)
     byname = {qn: masker for qn, masker, pname, prm in pitlib.mask_params(pit)}
     for pc, (sy, wsy, out) in ex.explore(fn):
-        for metric, (c, grads, guards) in out.items():
+        for metric, (c, grads, guards, c_again) in out.items():
             label = f'{pitlib.prog_id(spec)}:{metric}'
             base = {'what_kind': 'pit', 'spec': spec, 'wseed': wseed, 'metric': metric}
+            bad_rep = st.e_ne(c, c_again)
+            if bad_rep is not False:
+                r, m = ex.must(bad_rep) if bad_rep is not True else ('sat', None)
+                res.oblige(r == 'unsat')
+                if r == 'sat':
+                    res.violations.append({'key': f'{label}|not_repeatable', 'what': f'{label}: the cost read a second time on the same model differs ({str(c)[:80]} vs {str(c_again)[:80]})'})
+            else:
+                res.oblige(True)
 
             def model_masks(extra):
                 m, _ = pitlib.grid_model(ex, sy, extra)
@@ -274,7 +287,7 @@ def _run_pit(res, p, selftest):
         if mm is not None:
             masks = pitlib.values_of(mm, sy)
             for metric in list(out)[:2]:
-                c, grads, guards = out[metric]
+                c, grads, guards = out[metric][:3]
                 cc, cg, no_w = concrete_pit_grad(spec, wseed, jsonable(masks), metric)
                 ce = float(st.model_value(mm, c)) if st.is_sym(c) else float(c)
                 ok = abs(ce - cc) <= 1e-4 * max(1.0, abs(cc))
